@@ -7,7 +7,9 @@ import KaVerif.Gen.Bodies
   translator refused.  Everything else (overload resolution over the generated registry, coercion, `simplify_type`,
   `eval_node`, statements, display, `execute`) is `Model/Eval.lean`'s, copied with the dispatcher as a parameter: the
   definitions below from `evalEW` on are textually those of `Eval.evalE … Eval.runSession` with `dispatchTop` replaced by
-  the parameter `disp`.  Driver streams `runG` / `runsessG` (Driver/EvalG.lean) run whole programs through it; the harness
+  the parameter `disp` — and that is CHECKED, not trusted: `BODIES_evalG_instance` (Props/Bodies.lean) proves that
+  at `disp := Eval.dispatchTop` every one of them IS the `Eval` definition (structural induction over `Parser.Ast`), so a
+  copy that falls behind `Model/Eval.lean` (as it did when instants and probability entered the model) stops building.  Driver streams `runG` / `runsessG` (Driver/EvalG.lean) run whole programs through it; the harness
   compares them with the real `execute()` exactly like the `run` / `runsess` streams.
 
   The translated bodies carry no size bounds of their own; where the hand-written body refuses an astronomically large
@@ -21,6 +23,13 @@ open KaVerif Num Eval
 def refusesSize (code : Option BodyCode) (args : List Val) : Option String :=
   match code, args with
   | some .range, [.num (.int lo), .num (.int hi)] => if (hi + 1 - lo).toNat > maxRange then some "huge range" else Option.none
+  -- `bPow` declines powers with millions of digits (`10^12!` is `10^(12!)`); the translated `strict_pow` would compute them
+  | some .pow, [.num x, .num y] => if hugePow x y then some "huge power" else Option.none
+  | some .kaRange, [.num lo, .num hi, .num step] =>
+    -- `bKaRange` declines a nominal length beyond `maxRange` after its two guards passed (the translated `while` loop would
+    -- only stop at `pyLoopFuel`, after 20000 quadratic `append`s)
+    if cmpLt (.int 0) step && cmpLe lo hi && decide ((((hi.toRat - lo.toRat) / step.toRat).floor.toNat) + 3 > maxRange)
+    then some "huge range" else Option.none
   | _, _ => Option.none
 
 /-- `Eval.dispatchV` with the translated bodies `tbl` taking precedence over the hand-written ones -/
@@ -58,7 +67,7 @@ mutual
 def evalEW (disp : DispK) (env : Env) : Parser.Ast → R Val
   | .num v => liftE (simplify v) |>.map .num          -- LEAF: `simplify_number(v)` (parse_number)
   | .str s => .ok (.str s)
-  | .inst _ => .error (.unmodelled "instant")
+  | .inst s => instLeaf s                             -- LEAF: the Instant built by `parse_instant`
   | .var x =>
     match env.get x with
     | some v => .ok v
@@ -163,7 +172,9 @@ def evalAstW (disp : DispK) (env : Env) (t : Parser.Ast) : R (Val × Env) :=
 
 /-- the part of `execute` after parsing: evaluate, reduce, display -/
 def runTreeW (disp : DispK) (env : Env) (t : Parser.Ast) : Env × Outcome :=
-  if hasInstant t then (env, .unmodelled "instant") else
+  match checkInstants (instTexts t) with
+  | some o => (env, o)
+  | Option.none =>
   match runProgramW disp env t with
   | (env', .error e) => (env', ofEvalErr e)
   | (env', .ok v) =>
@@ -175,11 +186,15 @@ def runTreeW (disp : DispK) (env : Env) (t : Parser.Ast) : Env × Outcome :=
 def runTokensW (disp : DispK) (env : Env) (tokens : List Token) : Env × Outcome :=
   match Parser.parse tokens with
   | .error (.parsing i) =>
-    -- `instant_from_iso` runs when the parser reads an instant token and may raise there: an instant
-    -- token before the offending one puts the input outside the model
-    if (tokens.take i).any (fun t => t.tag == .inst) then (env, .unmodelled "instant")
-    else (env, .parseErr (parseErrIndex tokens i))
-  | .error .overflow => (env, .escaped "OverflowError")
+    -- `instant_from_iso` runs when the parser reads an instant token and may raise there: the instant
+    -- tokens before the offending one have been read (a ParsingError points at the token being read)
+    match checkInstants (tokInstTexts (tokens.take i)) with
+    | some o => (env, o)
+    | Option.none => (env, .parseErr (parseErrIndex tokens i))
+  | .error .overflow =>
+    -- where `parse_number` overflowed is not recorded: with a malformed instant literal around, which
+    -- of the two exceptions comes first is not known
+    if (checkInstants (tokInstTexts tokens)).isSome then (env, .unmodelled "instant") else (env, .escaped "OverflowError")
   | .error .fuel => (env, .unmodelled "parser bound")
   | .ok t => runTreeW disp env t
 
